@@ -549,6 +549,40 @@ fn tickets() -> Vec<DocTicket> {
 fn check_tickets_caps_filters() -> (Bad, u64) {
     let mut bad: Bad = vec![];
     let mut n = 0;
+    // author-heads reports: what the encoder writes (no size limit) the decoder reads back —
+    // sets of up to 3 authors in every id order, timestamps with ties and at the varint steps
+    {
+        let ids: Vec<iroh_docs::AuthorId> = vec![iroh_docs::AuthorId::from(&[0u8; 32]), author(0).id(), author(1).id(), iroh_docs::AuthorId::from(&[0xffu8; 32])];
+        let tss = [0u64, 1, 1, 127, 128, u64::MAX];
+        for mask in 1u32..16 {
+            let chosen: Vec<usize> = (0..4).filter(|i| mask >> i & 1 == 1).collect();
+            if chosen.len() > 3 {
+                continue;
+            }
+            let mut idx = vec![0usize; chosen.len()];
+            loop {
+                n += 1;
+                let heads: AuthorHeads = chosen.iter().zip(idx.iter()).map(|(a, t)| (ids[*a], tss[*t])).collect();
+                match heads.encode(None).map_err(|e| e.to_string()).and_then(|b| AuthorHeads::decode(&b).map_err(|e| e.to_string())) {
+                    Ok(back) if back == heads => {}
+                    other => bad.push(("heads_report_survives_encode_decode", json!({"authors": chosen.len()}), format!("heads {:?}: {:?}", chosen.iter().zip(idx.iter()).map(|(a, t)| (*a, tss[*t])).collect::<Vec<_>>(), other.map(|_| "decoded to a different set")))),
+                }
+                // next timestamp assignment
+                let mut k = 0;
+                while k < idx.len() {
+                    idx[k] += 1;
+                    if idx[k] < tss.len() {
+                        break;
+                    }
+                    idx[k] = 0;
+                    k += 1;
+                }
+                if k == idx.len() {
+                    break;
+                }
+            }
+        }
+    }
     for t in tickets() {
         n += 2;
         match DocTicket::decode_bytes(&t.encode_bytes()) {
